@@ -39,7 +39,7 @@ ASSUMPTIONS = [
     'xs:float operands are exactly representable in binary32 (the reading precision does not matter)',
 ]
 FLOORS = {
-    'value:cross-type': (0.25, 'value:pair'), 'value:comparable': (0.30, 'value:pair'),
+    'value:cross-type': (0.15, 'value:pair'), 'value:comparable': (0.30, 'value:pair'),
     'general:multi': (0.40, 'general:case'), 'general:untyped': (0.15, 'general:case'),
     'order:triple-all-comparable': (0.50, 'order:triple'), 'ebv:multi': (0.10, 'ebv:case'), 'logic:with-error-atom': (0.15, 'logic:case'),
 }
@@ -108,28 +108,35 @@ def _show(obs):
     return obs[0] if obs[0] == 'empty' else obs[1]
 
 
-def _judge_outcome(acceptable: set, obs, bucket_prefix: str, suffix: str, detail: str, discs: list):
-    """acceptable: set of True / False / error codes (or the marker 'empty')"""
+def _judge_outcome(acceptable: set, obs, family: str, types: str, op: str, detail: str, discs: list):
+    """acceptable: set of True / False / error codes (or the marker 'empty');
+    bucket = C07/<family>/<types>/<op>/<failure>"""
     exp = '|'.join(sorted(str(x).lower() if isinstance(x, bool) else x for x in acceptable))
+
+    def add(failure, observed):
+        discs.append(Disc(f'C07/{family}/{types}/{op}/{failure}', exp, observed, detail))
+
     if obs[0] == 'escape':
-        discs.append(Disc(escape_bucket(PROPERTY, obs[1]) + '/' + bucket_prefix.split('/', 1)[1], exp, repr(obs[1]), detail))
-        return
-    if obs[0] == 'bool':
+        discs.append(Disc(escape_bucket(PROPERTY, obs[1]) + f'/{family}', exp, repr(obs[1]), detail))
+    elif obs[0] == 'bool':
         if obs[1] not in acceptable:
-            errs = [x for x in acceptable if not isinstance(x, bool)]
-            kind = f'no-error:{errs[0]}' if errs and not any(isinstance(x, bool) for x in acceptable) else \
-                ('true-for-false' if obs[1] else 'false-for-true')
-            discs.append(Disc(f'{bucket_prefix}/{kind}/{suffix}', exp, _show(obs), detail))
-        return
-    if obs[0] == 'error':
+            errs = sorted(x for x in acceptable if not isinstance(x, bool))
+            if errs and not any(isinstance(x, bool) for x in acceptable):
+                add(f'no-error:{errs[0]}', _show(obs))
+            else:
+                add('true-for-false' if obs[1] else 'false-for-true', _show(obs))
+    elif obs[0] == 'error':
         if obs[1] not in acceptable:
-            discs.append(Disc(f'{bucket_prefix}/unexpected-error:{obs[1]}/{suffix}', exp, obs[1], detail))
-        return
-    if obs[0] == 'empty':
+            add(f'unexpected-error:{obs[1]}', obs[1])
+    elif obs[0] == 'empty':
         if 'empty' not in acceptable:
-            discs.append(Disc(f'{bucket_prefix}/empty-result/{suffix}', exp, 'empty', detail))
-        return
-    discs.append(Disc(f'{bucket_prefix}/not-a-boolean/{suffix}', exp, _show(obs), detail))
+            add('empty-result', 'empty')
+    else:
+        add('not-a-boolean', _show(obs))
+
+
+def _outcome_of(obs):
+    return obs[1] if obs[0] in ('bool', 'error') else None
 
 
 # --------------------------------------------------------------------------
@@ -166,6 +173,58 @@ def _is_nontrivial(atoms_a, atoms_b):
 # value comparison (and the same pair as singleton general comparison)
 # --------------------------------------------------------------------------
 
+def _temporal_mixed(atoms) -> bool:
+    """some timezone-less and some timezoned date/time value"""
+    tzs = set()
+    for a in atoms:
+        if a[0] in C.DATETIMES or a[0] in C.GREGORIAN:
+            tzs.add(C.value(a)[1][1] is None)
+    return len(tzs) > 1
+
+
+def _as_double_compare(op, a, b):
+    """known-defect model: xs:float against xs:integer/xs:decimal compared in double precision"""
+    if {a[0], b[0]} & {'float'} and {a[0], b[0]} & {'integer', 'decimal'} and a[0] != b[0]:
+        va, vb = N.make(*a), N.make(*b)
+        wa = ('double', va[1]) if va[0] == 'float' else N.convert(va, 'double')
+        wb = ('double', vb[1]) if vb[0] == 'float' else N.convert(vb, 'double')
+        return C._num_compare(op, wa, wb)
+    return None
+
+
+def _lenient_pair(op, a, b, mode, tzm):
+    """known-defect model of a general comparison pair: an incomparable pair is 'not equal' instead of XPTY0004"""
+    r = C._general_pair(op, a, b, mode, tzm)
+    if r == ('error', 'XPTY0004') and op in ('eq', 'ne'):
+        return ('bool', op == 'ne')
+    return r
+
+
+def _special(discs, start, family, types, op, obs, a, b, mode, tz, close, general):
+    """move the discrepancy of one comparison into a narrow root-cause bucket when a recorded cause explains it"""
+    if len(discs) == start or obs[0] != 'bool':
+        return
+    d = discs[start]
+    opn = C.GENERAL.get(op, op)
+    if close:
+        d.bucket = f'C07/numeric-isclose-tolerance/{family}/{op}'
+        return
+    if tz is not None and _temporal_mixed([a, b]):
+        r = C.value_compare(opn, a, b, mode, 0) if a[0] == b[0] else None
+        if r is not None and r[0] == 'bool' and r[1] == obs[1]:
+            # the implicit timezone of the dynamic context is ignored: timezone-less values are taken as UTC
+            d.bucket = f'C07/implicit-timezone-ignored/{family}/{a[0]}'
+            return
+    m = _as_double_compare(opn, a, b)
+    if m is not None and m == obs[1]:
+        d.bucket = f'C07/float-carried-as-double/{family}/{types}'
+        return
+    if general:
+        r = _lenient_pair(opn, a, b, mode, TZ_MIN[tz])
+        if r is not None and r[0] == 'bool' and r[1] == obs[1] and d.bucket.endswith('no-error:XPTY0004'):
+            d.bucket = f'C07/general-missing-XPTY0004/{types}/{op}'
+
+
 def judge_value(case, rec: Recorder | None = None) -> list[Disc]:
     mode, a, b, tz = case['mode'], case['a'], case['b'], case.get('tz')
     discs: list[Disc] = []
@@ -184,9 +243,8 @@ def judge_value(case, rec: Recorder | None = None) -> list[Disc]:
         expr = f'{sa} {op} {sb}'
         obs = observe(mode, expr, tz)
         before = len(discs)
-        _judge_outcome({ref[1]}, obs, f'C07/value/{op}', types, f'{mode} tz={tz} {expr}', discs)
-        if close and len(discs) > before:
-            discs[before].bucket = f'C07/value/numeric-isclose-tolerance/{op}'
+        _judge_outcome({ref[1]}, obs, 'value', types, op, f'{mode} tz={tz} {expr}', discs)
+        _special(discs, before, 'value', types, op, obs, a, b, mode, tz, close, False)
     if case.get('general', True):
         for sym in case.get('gops') or GEN_OPS:
             acc = C.general_compare(sym, [a], [b], mode, tzm)
@@ -196,17 +254,17 @@ def judge_value(case, rec: Recorder | None = None) -> list[Disc]:
             expr = f'{sa} {sym} {sb}'
             obs = observe(mode, expr, tz)
             before = len(discs)
-            _judge_outcome(acc, obs, f'C07/general1/{sym}', types, f'{mode} tz={tz} {expr}', discs)
-            if close and len(discs) > before:
-                discs[before].bucket = f'C07/general1/numeric-isclose-tolerance/{sym}'
+            _judge_outcome(acc, obs, 'general1', types, sym, f'{mode} tz={tz} {expr}', discs)
+            _special(discs, before, 'general1', types, sym, obs, a, b, mode, tz, close, True)
     if rec is not None:
-        classes = ['value:pair', f'value:mode-{mode}']
+        pre = 'matrix' if case.get('matrix') else 'value'
+        classes = [f'{pre}:pair', f'{pre}:mode-{mode}']
         if a[0] != b[0]:
-            classes.append('value:cross-type')
+            classes.append(f'{pre}:cross-type')
         if comparable:
-            classes.append('value:comparable')
+            classes.append(f'{pre}:comparable')
         if tz:
-            classes.append('value:implicit-tz')
+            classes.append(f'{pre}:implicit-tz')
         rec.case(['value', mode, tz, a, b], nontrivial=_is_nontrivial([a], [b]), classes=classes, n=n,
                  sample={'check': 'value', 'mode': mode, 'tz': tz, 'a': sa, 'b': sb})
     return discs
@@ -219,10 +277,10 @@ def judge_empty(case, rec: Recorder | None = None) -> list[Disc]:
     discs: list[Disc] = []
     for op in VAL_OPS:
         expr = f'() {op} {sa}' if side == 'left' else f'{sa} {op} ()'
-        _judge_outcome({'empty'}, observe(mode, expr), f'C07/value-empty/{op}', a[0], f'{mode} {expr}', discs)
+        _judge_outcome({'empty'}, observe(mode, expr), 'value-empty', a[0], op, f'{mode} {expr}', discs)
     for sym in GEN_OPS:
         expr = f'() {sym} {sa}' if side == 'left' else f'{sa} {sym} ()'
-        _judge_outcome({False}, observe(mode, expr), f'C07/general-empty/{sym}', a[0], f'{mode} {expr}', discs)
+        _judge_outcome({False}, observe(mode, expr), 'general-empty', a[0], sym, f'{mode} {expr}', discs)
     if rec is not None:
         rec.case(['empty', mode, a, side], nontrivial=True, classes=['empty:case'], n=12,
                  sample={'check': 'empty', 'mode': mode, 'a': sa})
@@ -249,9 +307,16 @@ def judge_general(case, rec: Recorder | None = None) -> list[Disc]:
         expr = f'{ta} {sym} {tb}'
         obs = observe(mode, expr, tz)
         before = len(discs)
-        _judge_outcome(acc, obs, f'C07/general/{sym}', kinds, f'{mode} tz={tz} {expr}', discs)
-        if close and len(discs) > before:
-            discs[before].bucket = f'C07/general/numeric-isclose-tolerance/{sym}'
+        _judge_outcome(acc, obs, 'general', kinds, sym, f'{mode} tz={tz} {expr}', discs)
+        if len(discs) > before and obs[0] == 'bool':
+            if close:
+                discs[before].bucket = f'C07/numeric-isclose-tolerance/general/{sym}'
+            else:
+                # known-defect model: incomparable pairs count as 'not equal' instead of raising XPTY0004
+                rs = [_lenient_pair(C.GENERAL[sym], a, b, mode, tzm) for a in SA for b in SB]
+                if all(r is not None for r in rs) and not any(r[0] == 'error' for r in rs) and \
+                        any(r[1] for r in rs) == obs[1]:
+                    discs[before].bucket = f'C07/general-missing-XPTY0004/seq/{sym}'
     if rec is not None:
         classes = ['general:case', f'general:mode-{mode}']
         if len(SA) >= 2 or len(SB) >= 2:
@@ -295,7 +360,7 @@ def judge_general10(case, rec: Recorder | None = None) -> list[Disc]:
         exp = C.compare10(sym, _val10(a), _val10(b))
         expr = f'{sa} {sym} {sb}'
         obs = observe('1.0', expr)
-        _judge_outcome({exp}, obs, f'C07/general10/{sym}', f'{a[0]},{b[0]}', f'1.0 {expr}', discs)
+        _judge_outcome({exp}, obs, 'general10', f'{a[0]},{b[0]}', sym, f'1.0 {expr}', discs)
     if rec is not None:
         rec.case(['general10', a, b], nontrivial=a[0] != b[0], classes=['general10:case'] +
                  (['general10:cross-type'] if a[0] != b[0] else []), n=6,
@@ -406,7 +471,7 @@ def judge_ebv(case, rec: Recorder | None = None) -> list[Disc]:
             continue
         n += 1
         obs = observe(mode, expr, root=has_node)
-        _judge_outcome(acc, obs, f'C07/ebv/{name}', kind, f'{mode} {expr}', discs)
+        _judge_outcome(acc, obs, 'ebv', kind, name, f'{mode} {expr}', discs)
     if rec is not None:
         classes = ['ebv:case'] + (['ebv:multi'] if len(items) > 1 else []) + (['ebv:node'] if has_node else []) + \
             (['ebv:error-expected'] if not isinstance(e, bool) else [])
@@ -444,7 +509,7 @@ def judge_logic(case, rec: Recorder | None = None) -> list[Disc]:
     has_node = any('node' in operands[i] for i in used)
     obs = observe(mode, expr, root=has_node)
     top = f[0]
-    _judge_outcome(acc, obs, f'C07/logic/{top}', 'formula', f'{mode} {expr}', discs)
+    _judge_outcome(acc, obs, 'logic', 'formula', top, f'{mode} {expr}', discs)
     if rec is not None:
         err = any(not isinstance(C.ebv(operands[i]), bool) for i in used)
         rec.case(['logic', mode, operands, f], nontrivial=len(used) >= 2, classes=['logic:case'] +
@@ -485,18 +550,22 @@ def value_case(draw):
     return {'mode': draw(_mode), 'tz': draw(_tz), 'a': a, 'b': b}
 
 
+_ARM_TYPES = list(C.NUMERIC) + ['string', 'anyURI', 'boolean', 'QName', 'untypedAtomic']
+
+
 @st.composite
 def general_case(draw):
-    k = draw(st.integers(0, 9))
-    if k < 5:       # one kind (+ untypedAtomic): mostly comparable pairs
+    """sequences of one kind (+ untypedAtomic), or a mix of numeric/string/boolean/QName/untypedAtomic items;
+    the whole type matrix (all 22 x 22 pairs) is covered by the singleton comparisons of `matrix`"""
+    if draw(st.integers(0, 9)) < 6:
         kind = draw(st.sampled_from(_kinds))
         types = _KIND_TYPES[kind] + ['untypedAtomic']
-        el = st.sampled_from(types).flatmap(A.atom_of)
     else:
-        el = _ANY
+        types = _ARM_TYPES
+    el = st.sampled_from(types).flatmap(A.atom_of)
     SA = draw(st.lists(el, min_size=0, max_size=4))
     SB = draw(st.lists(el, min_size=0, max_size=4))
-    return {'mode': draw(_mode), 'tz': draw(_tz), 'A': SA, 'B': SB}
+    return {'mode': draw(_mode), 'tz': None, 'A': SA, 'B': SB}
 
 
 _V10 = st.one_of(
@@ -544,7 +613,7 @@ def matrix_cases(lo, hi, mode):
     for i, (a, b) in enumerate(itertools.product(atoms, atoms)):
         if lo <= i < hi:
             tz = '-05:00' if (a[0] in temporal and b[0] in temporal) else None
-            yield {'mode': mode, 'tz': tz, 'a': a, 'b': b}
+            yield {'mode': mode, 'tz': tz, 'a': a, 'b': b, 'matrix': True}
 
 
 # --------------------------------------------------------------------------
